@@ -2,6 +2,8 @@ import PfVerif.Audit.Tool
 import PfVerif.Props.C14
 import PfVerif.Lemmas.C14Multi
 import PfVerif.Lemmas.C14Price
+import PfVerif.Lemmas.C14GradMode
 #audit_module PfVerif.Props.C14
 #audit_module_ns PfVerif.Lemmas.C14Multi PfVerif.C14Multi
 #audit_module_ns PfVerif.Lemmas.C14Price PfVerif.C14Price
+#audit_module_ns PfVerif.Lemmas.C14GradMode PfVerif.C14GradMode
